@@ -117,7 +117,7 @@ impl Ctx {
                 return v;
             }
         }
-        self.tier.pick(45.0, 3000.0)
+        self.tier.pick(150.0, 3000.0)
     }
 
     /// Records a violation. `class` identifies the failing input / call site class (used to match
